@@ -57,7 +57,21 @@ notes={"C04-a":"C06 (after the `ch_outer_sni_changed` retry variant was added; C
  "C14-h":"C14 (after fully qualified host spellings with a trailing dot were generated)",
  "C16-h":"C16 (after the clock was allowed to advance while an upstream query is in flight; the reference cache advances at the same points)",
  "C18-h":"C18 (after the per-attempt deadline was required to equal Timeout exactly, not merely to stay below it)",
- "C20-h":"C20 (after `success:false` responses without any error detail were added to the failure kinds)"}
+ "C20-h":"C20 (after `success:false` responses without any error detail were added to the failure kinds)",
+ "C01-i":"C06 `blocked` stage after the scripted transport let the client answer before the Write that carried the HelloRetryRequest returned; C01 after the front transport's Write returned 300 us late in some cases",
+ "C03-i":"C03 (after the caller edited the slice returned by ALPNProtos() and asked again)",
+ "C04-i":"C06 as it was (change_cipher_spec between HelloRetryRequest and an ill-formed retry); C04 itself only drives first hellos",
+ "C05-i":"C05 (after the no-TLS-1.3 hello with an authentic ECH payload got legacy_version values of 0x0304 and above)",
+ "C06-i":"C06 (after the application edited its copy of ALPNProtos() before the retry)",
+ "C07-i":"C07 (after the transport was allowed to end inside the retry flight: the bytes received are delivered, then the transport's error)",
+ "C08-i":"C09 as it was changed for C09-i; C08 after key lists of two keys in two WithKeys options were added",
+ "C09-i":"C09 (after the key list was handed over in two WithKeys options, the first a slice with spare capacity reused by another connection in between)",
+ "C11-i":"C11 (after an untouched copy of the same config bytes was parsed again once the caller had edited the first result)",
+ "C12-i":"C12 (after the `cnames` stage was added: answers whose CNAME records form chains, forks and cycles through the queried name)",
+ "C14-i":"C16 as it was; C14 after Resolve was repeated on a caching resolver (same outcome every time)",
+ "C15-i":"C15 (after 16-byte IPv4-mapped addresses were generated)",
+ "C17-i":"C19 as it was (Host override); C17 after the Transport mode got a Host header override",
+ "C19-i":"C19 (after Dialer.Resolver was set on the Transport's Dialer in half of the cases)"}
 rows=["| Seed | Breaks | Change (summary) | Needs to manifest | Caught by (quick tier) |","|---|---|---|---|---|"]
 for d in sorted(glob.glob('/verif/seeded/*/meta.json')):
     m=json.load(open(d)); sid=m['seed_id']
@@ -73,6 +87,6 @@ end=s.rindex("\n",0,end)+1
 s=s[:start]+"\n".join(rows)+"\n\n"+s[end:]
 import re
 s=re.sub(r"\w+ rounds of sub-agents produced \d+ distinct confirmed changes \(duplicates of an\nearlier idea were dropped\)\. \w+ of them were missed by the version of the\nchecks that existed when they arrived and led to the strengthenings named in\nthe last column; all \d+ are now reported by the quick tier at `VERIF_SEED=1`\.",
- f"Eight rounds of sub-agents produced {n} distinct confirmed changes (duplicates of an\nearlier idea were dropped). {len(notes)} of them were missed by the version of the\nchecks that existed when they arrived and led to the strengthenings named in\nthe last column; all {n} are now reported by the quick tier at `VERIF_SEED=1`.", s)
+ f"Nine rounds of sub-agents produced {n} distinct confirmed changes (duplicates of an\nearlier idea were dropped). {len(notes)} of them were missed by the version of the\nchecks that existed when they arrived and led to the strengthenings named in\nthe last column; all {n} are now reported by the quick tier at `VERIF_SEED=1`.", s)
 open('/verif/DESIGN.md','w').write(s)
 print(n, len(notes))
